@@ -163,6 +163,15 @@ def replay_one(scn, rec, opts):
                 elif opts.get("c15", True) and obs.get("k") == "answer" and _gv_bad([obs.get("gv")], [exp.get("ans")]):
                     viol = ("get_value", "get_value at an answer is not the fully dereferenced term")
                     obs, exp = obs.get("gv"), exp.get("ans")
+                elif opts.get("c15", True) and obs.get("makelist_stale"):
+                    viol = ("makelist", "a list built with makelist from the query variables at an earlier answer does not follow their bindings")
+                    obs, exp = obs.get("makelist_stale"), None
+                elif opts.get("c15", True) and obs.get("k") == "answer" and exp.get("pyargs") and _gv_bad([obs.get("gargs")], [exp.get("gargs")]):
+                    viol = ("get_value", "get_value of a goal argument term at an answer is not the fully dereferenced term")
+                    obs, exp = obs.get("gargs"), exp.get("gargs")
+                elif opts.get("c15", True) and obs.get("k") == "answer" and exp.get("pyargs") and norm(_pyfilter([obs.get("pyargs")], [exp.get("pyargs")])) != norm([exp.get("pyargs")]):
+                    viol = ("to_python", "to_python of a goal argument term at an answer differs from the specified image")
+                    obs, exp = obs.get("pyargs"), exp.get("pyargs")
                 elif opts.get("c15", True) and obs.get("k") == "solve" and _gv_bad(obs.get("gvs"), exp.get("answers")):
                     viol = ("get_value", "get_value at an answer is not the fully dereferenced term")
                     obs, exp = obs.get("gvs"), exp.get("answers")
